@@ -244,6 +244,7 @@ func (p *c11) Describe(i int) any {
 
 func (p *c11) RunCase(i int) *core.CaseResult {
 	r := &core.CaseResult{}
+	defer withUsage(r, "C11")()
 	c := &p.cases[i]
 	sql, clause := p.sqlOf(c)
 	opts := func() []genql.QueryOption {
